@@ -57,6 +57,10 @@ fn peer() -> SocketAddr {
     "192.0.2.53:53".parse().unwrap()
 }
 
+fn foreign_addr() -> SocketAddr {
+    "198.51.100.7:53".parse().unwrap()
+}
+
 /// Message k of a sequence, `len` bytes, every byte depends on (k, position).
 fn message(k: usize, len: usize) -> Vec<u8> {
     (0..len).map(|i| ((k * 89 + i * 7 + 13) % 251) as u8).collect()
@@ -71,6 +75,10 @@ enum Choice {
     Poll,
     Enqueue,
     DropHandle,
+    /// hand over a message through a handle whose remote address is NOT the peer of this stream
+    EnqueueForeign,
+    /// advance the virtual clock by k x 100 s (TimeoutStream wrapper, timeout 360 s)
+    Tick(u8),
     // socket call
     Pending,
     N(u32),
@@ -84,6 +92,8 @@ fn choice_json(c: &Choice) -> Value {
         Choice::Poll => json!("poll"),
         Choice::Enqueue => json!("enqueue"),
         Choice::DropHandle => json!("drop-handle"),
+        Choice::EnqueueForeign => json!("enqueue-foreign"),
+        Choice::Tick(k) => json!(format!("tick-{k}")),
         Choice::Pending => json!("pending"),
         Choice::N(n) => json!(n),
         Choice::Done => json!("flush-ok"),
@@ -100,6 +110,8 @@ fn choice_from_json(v: &Value) -> Choice {
         "poll" => Choice::Poll,
         "enqueue" => Choice::Enqueue,
         "drop-handle" => Choice::DropHandle,
+        "enqueue-foreign" => Choice::EnqueueForeign,
+        t if t.starts_with("tick-") => Choice::Tick(t[5..].parse().unwrap_or(2)),
         "pending" => Choice::Pending,
         "flush-ok" => Choice::Done,
         "eof" => Choice::Eof,
@@ -405,7 +417,8 @@ impl Machine {
 
 thread_local! {
     /// `TimeoutStream` creates tokio `Sleep`s: they need a runtime context with a (paused) clock.
-    /// Nothing ever drives the runtime, so virtual time stands still and no timeout fires.
+    /// The runtime is only driven by the `Tick` driver op (`tokio::time::advance`), so virtual time
+    /// moves exactly when the script says so.
     static RT: tokio::runtime::Runtime = tokio::runtime::Builder::new_current_thread().enable_time().start_paused(true).build().unwrap();
 }
 
@@ -428,6 +441,10 @@ struct Inst {
     allow_drop: bool,
     /// wake-driven family: the driver may poll only after an item, or when the task was woken
     wake_driven: bool,
+    /// how many foreign-addressed messages the driver may hand over
+    foreign: u8,
+    /// how many clock ticks the driver may insert (TimeoutStream wrapper only)
+    max_ticks: u8,
 }
 
 impl Inst {
@@ -457,7 +474,7 @@ impl Inst {
             p += 2 + m.len();
             b.push(p);
         }
-        Inst { label, wrapper, inbound: Arc::new(inbound), in_frames, zero_at, out_msgs, out_image, out_boundaries: Arc::new(b), max_errors, allow_drop, wake_driven: false }
+        Inst { label, wrapper, inbound: Arc::new(inbound), in_frames, zero_at, out_msgs, out_image, out_boundaries: Arc::new(b), max_errors, allow_drop, wake_driven: false, foreign: 0, max_ticks: 0 }
     }
     fn to_json(&self) -> Value {
         json!({
@@ -468,6 +485,8 @@ impl Inst {
             "max_errors": self.max_errors,
             "allow_drop": self.allow_drop,
             "wake_driven": self.wake_driven,
+            "foreign": self.foreign,
+            "max_ticks": self.max_ticks,
         })
     }
     fn from_json(v: &Value) -> Inst {
@@ -487,6 +506,16 @@ impl Inst {
             v["allow_drop"].as_bool().unwrap_or(false),
         )
         .wake(v["wake_driven"].as_bool().unwrap_or(false))
+        .foreign(v["foreign"].as_u64().unwrap_or(0) as u8)
+        .ticks(v["max_ticks"].as_u64().unwrap_or(0) as u8)
+    }
+    fn foreign(mut self, n: u8) -> Inst {
+        self.foreign = n;
+        self
+    }
+    fn ticks(mut self, n: u8) -> Inst {
+        self.max_ticks = n;
+        self
     }
     fn wake(mut self, on: bool) -> Inst {
         self.wake_driven = on;
@@ -522,6 +551,12 @@ struct RunOut {
     violated: bool,
     /// wake-driven family only: the driver may poll now (an item was just returned, or a wake-up is pending)
     can_poll: bool,
+    foreign_used: u8,
+    foreign_outstanding: u8,
+    ticks_used: u8,
+    /// virtual time since the timeout timer was (re)started, in units of 100 s, capped at 8
+    since_restart: u8,
+    timer_started: bool,
 }
 
 fn classify_yield(got: &[u8], inst: &Inst, idx: usize, complete: usize, prev: Option<&Vec<u8>>) -> Option<(String, String)> {
@@ -654,6 +689,11 @@ fn run(inst: &Inst, script: &[Choice], auto: Option<usize>, l: &mut Local) -> Ru
     let mut last_pending = false;
 
     let mut enq = 0usize;
+    let mut foreign_used = 0u8;
+    let mut foreign_outstanding = 0u8;
+    let mut ticks_used = 0u8;
+    let mut since_restart = 0u8;
+    let mut timer_started = false;
     let mut yielded: Vec<Vec<u8>> = vec![];
     let mut terminal = 0u8;
     let mut violated = false;
@@ -714,6 +754,28 @@ fn run(inst: &Inst, script: &[Choice], auto: Option<usize>, l: &mut Local) -> Ru
                 handle = None;
                 continue;
             }
+            Choice::EnqueueForeign => {
+                match handle.as_ref() {
+                    Some(h) => {
+                        let mut f = h.with_remote_addr(foreign_addr());
+                        if f.send(SerialMessage::new(vec![0xee, 0xef, 0xee], foreign_addr())).is_err() {
+                            shared.lock().unwrap().bad_script = Some("foreign send failed".into());
+                        }
+                        foreign_used += 1;
+                        foreign_outstanding += 1;
+                    }
+                    None => shared.lock().unwrap().bad_script = Some("foreign enqueue without a handle".into()),
+                }
+                continue;
+            }
+            Choice::Tick(k) => {
+                RT.with(|rt| rt.block_on(async { tokio::time::advance(Duration::from_secs(k as u64 * 100)).await }));
+                ticks_used += 1;
+                if timer_started {
+                    since_restart = (since_restart + k).min(8);
+                }
+                continue;
+            }
             Choice::Poll => {}
             other => {
                 shared.lock().unwrap().bad_script = Some(format!("answer {other:?} at a driver point"));
@@ -737,6 +799,15 @@ fn run(inst: &Inst, script: &[Choice], auto: Option<usize>, l: &mut Local) -> Ru
         seen = wc.0.load(Ordering::SeqCst);
         let r = mach.poll(&mut cx);
         last_pending = matches!(r, Poll::Pending);
+        // TimeoutStream (re)starts its timer at the first poll and whenever the inner stream is Ready
+        let is_timeout_err = matches!(&r, Poll::Ready(Some(Err(e))) if e.contains("nothing ready in") || e.contains("timeout fired"));
+        let timeout_due = timer_started && since_restart as u32 * 100 >= 360;
+        if !timer_started {
+            timer_started = true;
+            since_restart = 0;
+        } else if matches!(r, Poll::Ready(_)) && !is_timeout_err {
+            since_restart = 0;
+        }
         let (frozen, flags, consumed, accepted_ok) = {
             let s = shared.lock().unwrap();
             (s.frozen, s.flags, s.consumed, inst.out_image.starts_with(&s.accepted) && s.accepted.len() <= handed_len(inst, enq))
@@ -790,6 +861,9 @@ fn run(inst: &Inst, script: &[Choice], auto: Option<usize>, l: &mut Local) -> Ru
         };
         match r {
             Poll::Pending => {
+                if timeout_due {
+                    l.outcome("obs:timeout-due-but-stream-pending");
+                }
                 if eof {
                     viol(l, &format!("eof:pending:{}", eof_where()), "the connection was closed but the stream neither ended nor failed", &mut violated);
                     terminal = 2;
@@ -834,6 +908,23 @@ fn run(inst: &Inst, script: &[Choice], auto: Option<usize>, l: &mut Local) -> Ru
             Poll::Ready(Some(Err(e))) => {
                 if e.starts_with("HARNESS") {
                     viol(l, "read:foreign-source-address", &e, &mut violated);
+                }
+                let mut cause = cause;
+                if is_timeout_err {
+                    // the idle timeout of the wrapper: legitimate only after 360 s without an item
+                    if !timeout_due {
+                        viol(l, "timeout:spurious", &format!("timeout error {} s after the timer was (re)started, the timeout is 360 s: {e}", since_restart as u32 * 100), &mut violated);
+                    } else {
+                        l.outcome("timeout:fired");
+                    }
+                    // the owner of the stream drops the connection on this error
+                    terminal = 2;
+                    cause = true;
+                } else if e.contains("mismatched peer") && foreign_outstanding > 0 {
+                    // the foreign-addressed message was refused
+                    foreign_outstanding -= 1;
+                    l.outcome("foreign:refused-with-error");
+                    cause = true;
                 }
                 match eof_expect {
                     None => {
@@ -905,6 +996,11 @@ fn run(inst: &Inst, script: &[Choice], auto: Option<usize>, l: &mut Local) -> Ru
         terminal,
         violated,
         can_poll: !inst.wake_driven || !last_pending || wc.0.load(Ordering::SeqCst) != seen,
+        foreign_used,
+        foreign_outstanding,
+        ticks_used,
+        since_restart,
+        timer_started,
     }
 }
 
@@ -923,6 +1019,13 @@ fn choices(inst: &Inst, o: &RunOut) -> Vec<Choice> {
             }
             if o.alive && inst.allow_drop && (o.enq as usize) == inst.out_msgs.len() {
                 v.push(Choice::DropHandle);
+            }
+            if o.alive && o.foreign_used < inst.foreign {
+                v.push(Choice::EnqueueForeign);
+            }
+            if inst.wrapper == Wrapper::Timeout && o.ticks_used < inst.max_ticks {
+                v.push(Choice::Tick(2));
+                v.push(Choice::Tick(4));
             }
         }
         Point::Read { buf } => {
@@ -1247,6 +1350,37 @@ fn main() {
         do_grid("wake", insts, &mut base);
     }
 
+    // foreign-addressed messages: handed over through `handle.with_remote_addr(other)`; they must
+    // never reach the wire of this connection and must not disturb the framing of the others
+    {
+        let mut insts = vec![];
+        let os = if quick { sequences(&[1, 3], 2) } else { sequences(&[1, 2, 3], 2) };
+        for o in &os {
+            for (i, wake) in [(vec![], false), (vec![2usize], false), (vec![2usize], true)] {
+                insts.push(Inst::new(format!("foreign in{i:?} out{o:?} wake={wake}"), Wrapper::Plain, inbound_of(&i), o, 1, true).foreign(1).wake(wake));
+            }
+        }
+        insts.push(Inst::new("foreign in[] out[] x2".into(), Wrapper::Plain, vec![], &[], 0, true).foreign(2));
+        insts.push(Inst::new("foreign Client in[1] out[2]".into(), Wrapper::Client, inbound_of(&[1]), &[2], 1, true).foreign(1));
+        insts.push(Inst::new("foreign Timeout in[1] out[2]".into(), Wrapper::Timeout, inbound_of(&[1]), &[2], 1, true).foreign(1));
+        do_grid("foreign", insts, &mut base);
+    }
+
+    // a firing idle timeout: the driver may advance the virtual clock by 200 s or 400 s between polls
+    // (TimeoutStream, 360 s): a timeout error is legitimate only 360 s after the last item / first poll
+    {
+        let mut insts = vec![];
+        let ticks = if quick { 2 } else { 3 };
+        for i in [vec![1usize], vec![2, 1], vec![3, 3, 1]] {
+            for o in [vec![], vec![1usize], vec![2, 2]] {
+                for wake in [false, true] {
+                    insts.push(Inst::new(format!("timeout-fire in{i:?} out{o:?} wake={wake}"), Wrapper::Timeout, inbound_of(&i), &o, if quick { 0 } else { 1 }, false).ticks(ticks).wake(wake));
+                }
+            }
+        }
+        do_grid("timeout-fire", insts, &mut base);
+    }
+
     // matching-free cross-run on short streams: E = I/O errors allowed per run
     {
         let mut insts = vec![];
@@ -1267,6 +1401,8 @@ fn main() {
         }
         insts.push(Inst::new("x-joint in[1] out[1] E=0".into(), Wrapper::Plain, inbound_of(&[1]), &[1], 0, true));
         insts.push(Inst::new("x-wake-joint in[1] out[1] E=0".into(), Wrapper::Plain, inbound_of(&[1]), &[1], 0, true).wake(true));
+        insts.push(Inst::new("x-foreign out[1] E=0".into(), Wrapper::Plain, vec![], &[1], 0, false).foreign(1));
+        insts.push(Inst::new("x-timeout-fire in[1] E=0".into(), Wrapper::Timeout, inbound_of(&[1]), &[], 0, false).ticks(2));
         if !quick {
             insts.push(Inst::new("x-joint in[1] out[1] E=1".into(), Wrapper::Plain, inbound_of(&[1]), &[1], 1, true));
             insts.push(Inst::new("x-joint in[2] out[1] E=0".into(), Wrapper::Plain, inbound_of(&[2]), &[1], 0, true));
@@ -1353,6 +1489,65 @@ fn main() {
             }
         });
     }
+
+    // observation only (outside the statement's lengths 1..300 and not a DNS message over TCP at
+    // all): a message of more than 65,535 bytes handed to the handle
+    ctx.with_local(|l| {
+        for len in [65_536usize, 65_537, 70_000] {
+            let shared = Arc::new(Mutex::new(Shared {
+                script: vec![],
+                pos: 0,
+                auto_chunk: Some(usize::MAX),
+                inbound: Arc::new(vec![]),
+                consumed: 0,
+                accepted: Vec::new(),
+                flushed_at: None,
+                unflushed_boundary_writes: 0,
+                out_boundaries: Arc::new(vec![]),
+                frozen: None,
+                eof_answered: false,
+                flags: 0,
+                errors_used: 0,
+                nonprogress: 0,
+                bad_script: None,
+                read_waker: None,
+                write_waker: None,
+                flush_waker: None,
+            }));
+            let res = catch(|| {
+                let (mut stream, mut handle) = TcpStream::from_stream(SimTcp(shared.clone()), peer());
+                let sent = handle.send(SerialMessage::new(message(7, len), peer())).is_ok();
+                let wc = Arc::new(WakeCount(AtomicUsize::new(0)));
+                let waker = Waker::from(wc);
+                let mut cx = Context::from_waker(&waker);
+                let mut items = vec![];
+                for _ in 0..4 {
+                    match Pin::new(&mut stream).poll_next(&mut cx) {
+                        Poll::Ready(Some(r)) => items.push(r.is_ok()),
+                        _ => break,
+                    }
+                }
+                (sent, items)
+            });
+            let s = shared.lock().unwrap();
+            let class = match res {
+                Err(_) => "obs:oversize-message:panic",
+                Ok((false, _)) => "obs:oversize-message:refused-by-the-handle",
+                Ok((true, items)) if s.accepted.is_empty() => {
+                    if items.iter().any(|ok| !ok) { "obs:oversize-message:error-item-nothing-written" } else { "obs:oversize-message:silently-dropped" }
+                }
+                Ok((true, _)) => {
+                    let prefix = ((s.accepted[0] as usize) << 8) | s.accepted[1] as usize;
+                    if s.accepted.len() == 2 + len && prefix == len % 65_536 {
+                        "obs:oversize-message:length-prefix-truncated-to-16-bits-and-all-bytes-written(stream-corrupt-for-the-peer)"
+                    } else {
+                        "obs:oversize-message:other"
+                    }
+                }
+            };
+            l.outcome(class);
+        }
+    });
 
     ctx.set("grids", Value::Object(grid_stats));
     ctx.set("max_io_errors_per_run", json!(max_err));
